@@ -101,6 +101,9 @@ def script_sets_2():
         ("project-len/nows", NOWS, [[["len"]], [["project"], ["len"]]]),
         ("init2-init2/empty", EMPTY, [[i1, i2], [i2, i1]]),
         ("set-len-get/populated", pop((J1, {"k": 0})), [[["set", J1, "k", 5], ["len"]], [["get", J1], i2]]),
+        # whole-document assignment (oracle only: not an operation of the Lean model)
+        ("assign-get/populated", pop((J1, {"k": 0, "z": "old"})), [[["assign", J1, {"k": 1, "n": {"q": [1]}}]], [["get", J1], ["get", J1]]]),
+        ("assign-get/empty", EMPTY, [[["assign", J1, {"k": 1}]], [["get", J1]]]),
         # outside the property's domain (two writers of ONE document, updates can be lost): only the
         # correspondence and the schedule-independent clauses of the oracle are judged
         ("2writers-same-doc/populated", pop((J1, {"k": 0})), [[["set", J1, "a", 1]], [["set", J1, "b", 2]]]),
@@ -262,6 +265,8 @@ def make_actor(d, script):
                     p.open_job(op[1]).init()
                 elif op[0] == "set":
                     p.open_job(op[1]).doc[op[2]] = op[3]
+                elif op[0] == "assign":      # whole-document assignment: ONE logical write
+                    p.open_job(op[1]).doc = op[2]
                 elif op[0] == "get":
                     obs.append(["doc", plain(p.open_job(op[1]).doc())])
                 elif op[0] == "len":
@@ -382,7 +387,7 @@ def job_ops(scripts):
     """(actor, op index, op) of every operation that names a state point."""
     for a, ops in enumerate(scripts):
         for n, op in enumerate(ops):
-            if op[0] in ("init", "set", "get"):
+            if op[0] in ("init", "set", "get", "assign"):
                 yield a, n, op
 
 
@@ -394,8 +399,10 @@ def sequential_outcomes(case):
         docs = {ref_id(j["sp"]): (dict(j["doc"]) if j.get("doc") is not None else None) for j in case["init"]["jobs"]}
         for a in perm:
             for op in case["scripts"][a]:
-                if op[0] in ("init", "get", "set"):
+                if op[0] in ("init", "get", "set", "assign"):
                     docs.setdefault(ref_id(op[1]), None)
+                if op[0] == "assign":
+                    docs[ref_id(op[1])] = dict(op[2])
                 if op[0] == "set":
                     i = ref_id(op[1])
                     cur = docs[i] if docs[i] is not None else {}
@@ -472,6 +479,36 @@ def oracle(case, d, res, trace, label):
                 reads_of.setdefault((a, p), []).append({} if base == DOC_FILE else None)
             else:
                 fail("step %d: actor %d: read of %s failed with %s" % (pos, a, p, r))
+    # a document with ONE writer only ever shows a value that writer produced at an operation boundary: the
+    # initial value, or the value after its 1st, 2nd, ... completed write (a whole-document assignment is one
+    # write: no reader may see an in-between state such as the emptied document)
+    wr = {}
+    for a_, ops_ in enumerate(scripts):
+        for op_ in ops_:
+            if op_[0] in ("set", "assign"):
+                wr.setdefault(ref_id(op_[1]), set()).add(a_)
+    for i_, ws_ in wr.items():
+        if len(ws_) != 1:
+            continue
+        a_ = next(iter(ws_))
+        init_doc = next((dict(j["doc"]) for j in case["init"]["jobs"] if ref_id(j["sp"]) == i_ and j.get("doc") is not None), {})
+        bounds, cur = [dict(init_doc)], dict(init_doc)
+        for op_ in scripts[a_]:
+            if op_[0] == "set" and ref_id(op_[1]) == i_:
+                cur = dict(cur)
+                cur[op_[2]] = op_[3]
+                bounds.append(cur)
+            elif op_[0] == "assign" and ref_id(op_[1]) == i_:
+                cur = dict(op_[2])
+                bounds.append(cur)
+        p_ = os.path.join(WS, i_, DOC_FILE)
+        for (ra, rp), vals in reads_of.items():
+            if rp != p_:
+                continue
+            for v_ in vals:
+                if (v_ or {}) not in bounds:
+                    fail("actor %d read document %s = %s, which its single writer (actor %d) never produced at an operation "
+                         "boundary %s" % (ra, i_[:8], json.dumps(v_), a_, json.dumps(bounds)))
     # a `job.doc()` hands back exactly what its own read of the file saw (never a stale copy)
     for a, ops in enumerate(scripts):
         obs = list(res.exits.get(a, {}).get("obs") or [])
@@ -552,7 +589,7 @@ def oracle(case, d, res, trace, label):
         writers = {}
         for a_, ops_ in enumerate(scripts):
             for op_ in ops_:
-                if op_[0] == "set":
+                if op_[0] in ("set", "assign"):
                     writers.setdefault(ref_id(op_[1]), set()).add(a_)
         multi = {i for i, w in writers.items() if len(w) > 1}   # not covered by the property
         if not any(set(o) == set(final_docs) and all(same(o[i], final_docs[i]) for i in o if i not in multi)
@@ -590,10 +627,11 @@ def one_run(case, base, chooser, tags):
 
 def judge(case, res, trace, d, out, label):
     schedule = [t[0] for t in trace]
-    line = case_wire(case, schedule)
-    out["model"] += ["trace " + line, "final " + line, "exits " + line]
-    out["impl"] += [";".join(step_str(t) for t in trace), ";".join(tree_lines(d)),
-                    ";".join(exit_str(res.exits.get(a, {"status": "missing"})) for a in range(len(case["scripts"])))]
+    if not any(op[0] == "assign" for ops in case["scripts"] for op in ops):   # `assign` is not an op of the Lean model
+        line = case_wire(case, schedule)
+        out["model"] += ["trace " + line, "final " + line, "exits " + line]
+        out["impl"] += [";".join(step_str(t) for t in trace), ";".join(tree_lines(d)),
+                        ";".join(exit_str(res.exits.get(a, {"status": "missing"})) for a in range(len(case["scripts"])))]
     fails = oracle(case, d, res, trace, label + " schedule=" + json.dumps(schedule, separators=(",", ":")))
     out["oracle"] += fails
     if fails and "failing_schedule" not in out:
